@@ -64,6 +64,8 @@ func VH_C03_api() {
 			rows = append(rows, vhRichRow{c.UUID(), vhRichStored(c)})
 		}
 	case 4: // move a away, then its old value is free
+		// the replacement values differ from a's current ones
+		vAssume(vAnd(sa.K != 9000, sa.Q != "moved-away"))
 		moved := *a
 		moved.K, moved.Q = 9000, "moved-away"
 		err := db.InsertOrUpdate(&moved)
